@@ -617,6 +617,14 @@ example : IP.IsFixed 10 3 "007".toList 7 ∧ IP.IsShortest 16 "a010203".toList 1
   have := h.2.1 (by decide)
   exact absurd this (by decide)
 
+/-- **the dotted quad and the CIDR texts** (`str(ip)`, `as_cidr_addr`, `as_cidr_net` of `v4_values_agree`): the four
+octets, each in shortest decimal, joined by dots; `/len` appends the prefix length in shortest decimal -/
+theorem dotted_spec (n len : Nat) :
+    IP.dotted n = join ['.'] ((IP.octets n).map toDec) ∧ (∀ v, IP.IsShortest 10 (toDec v) v) ∧
+    ∀ a, IP.cidr a len = a ++ '/' :: toDec len := by
+  refine ⟨?_, toDec_shortest, fun _ => rfl⟩
+  rw [← dotted_eq, ← toBytes4_eq_octets]; rfl
+
 /-- the octets / groups the renderings speak about are the digits of the address in base 256 / 65536: they
 are below the base and add up to the address -/
 theorem octets_groups_value :
